@@ -133,3 +133,11 @@ Print Assumptions C05_matches_documented_filters_depth_time_triggers.
 Theorem C05_trigger_table_example : wf_tg tg_example /\ pg_guard tg_example.
 Proof. exact tg_example_ok. Qed.
 Print Assumptions C05_trigger_table_example.
+
+(* ... and therefore independent of the instrumentation method inside that option class *)
+Theorem C05_method_independent_filters_triggers : forall tg fm hc gd thr ms f,
+  0 < gd -> wf_tg tg -> pg_guard tg -> all_timed f -> heights f <= ms ->
+  out (fst (exec (fcfg2 tg fm hc gd thr ms PG) (flat_forest f) (init, []))) =
+  out (fst (exec (fcfg2 tg fm hc gd thr ms CYG) (flat_forest f) (init, []))).
+Proof. exact method_independent_sel2. Qed.
+Print Assumptions C05_method_independent_filters_triggers.
